@@ -407,3 +407,81 @@ func verifHarness_C09_route() {
 		verifAssert(!ok && recipients == 0, "reported-undelivered-when-no-recipient-exists")
 	}
 }
+
+// ---- routing clause, acknowledgement direction
+
+type c9PeerClient struct {
+	grpc.ClientStream
+	got  int
+	fail bool
+}
+
+func (s *c9PeerClient) Send(m *adminservice.StreamWorkflowReplicationMessagesRequest) error {
+	if s.fail {
+		return errors.New("verif: peer stream broken")
+	}
+	s.got++
+	return nil
+}
+func (s *c9PeerClient) Recv() (*adminservice.StreamWorkflowReplicationMessagesResponse, error) {
+	return nil, errors.New("unused")
+}
+
+// verifHarness_C09_routeAck: an acknowledgement addressed to a source shard, from every combination
+// of local ack channel present/absent x remote owner known/unknown x intra-proxy receiver towards the
+// owner absent / open / open-but-broken / registered-but-not-yet-open x forwarding allowed or not:
+// handed to exactly one recipient and reported delivered, or to none and reported undelivered.
+func verifHarness_C09_routeAck() {
+	verifConfig("preempt", 0)
+	w := c9NewWorld(2)
+	a, b := w.insts[0], w.insts[1]
+	target := history.ClusterShardID{ClusterID: 2, ShardID: 1}
+	source := history.ClusterShardID{ClusterID: 1, ShardID: 1}
+	hasLocal := verifChoose("local-ack-channel", 2) == 1
+	ownerKnown := verifChoose("remote-owner-known", 2) == 1
+	peer := verifChoose("peer-receiver", 4) // 0 absent, 1 open, 2 open but broken, 3 registered, stream not yet open
+	allowForward := verifChoose("allow-forward", 2) == 1
+	localCh := make(chan RoutedAck, 4)
+	if hasLocal {
+		a.sm.SetLocalAckChan(source, localCh)
+	}
+	if ownerKnown {
+		b.sm.RegisterShard(source)
+		verifQuiesce()
+		w.merge(b, a)
+	}
+	pc := &c9PeerClient{fail: peer == 2}
+	if peer != 0 {
+		rcv := &intraProxyStreamReceiver{logger: log.NewNoopLogger(), shardManager: a.sm, intraMgr: a.sm.intraMgr, peerNodeName: b.name,
+			targetShardID: target, sourceShardID: source}
+		if peer != 3 {
+			rcv.streamClient = pc
+		} else {
+			verifReach("receiver-registered-before-its-stream-is-open")
+		}
+		im := a.sm.intraMgr
+		im.streamsMu.Lock()
+		ps := im.peers[b.name]
+		if ps == nil {
+			ps = &peerState{receivers: map[peerStreamKey]*intraProxyStreamReceiver{}, senders: map[peerStreamKey]*intraProxyStreamSender{}, recvShutdown: map[peerStreamKey]channel.ShutdownOnce{}}
+			im.peers[b.name] = ps
+		}
+		ps.receivers[peerStreamKey{targetShard: target, sourceShard: source}] = rcv
+		im.streamsMu.Unlock()
+	}
+	ack := &RoutedAck{TargetShard: target, Req: &adminservice.StreamWorkflowReplicationMessagesRequest{
+		Attributes: &adminservice.StreamWorkflowReplicationMessagesRequest_SyncReplicationState{
+			SyncReplicationState: &replicationv1.SyncReplicationState{InclusiveLowWatermark: 7}}}}
+	ok := a.sm.DeliverAckToShardOwner(source, ack, channel.NewShutdownOnce(), log.NewNoopLogger(), 7, allowForward)
+	recipients := len(localCh) + pc.got
+	verifReach("ack-routed")
+	verifAssert(recipients <= 1, "ack-never-delivered-twice")
+	verifAssert(ok == (recipients == 1), "ack-reported-delivered-iff-exactly-one-recipient-got-it")
+	if hasLocal {
+		verifAssert(len(localCh) == 1 && pc.got == 0, "ack:local-stream-preferred-over-remote-owner")
+	} else if allowForward && ownerKnown && peer == 1 {
+		verifAssert(pc.got == 1 && ok, "ack-forwarded-to-the-known-remote-owner")
+	} else {
+		verifAssert(!ok && recipients == 0, "ack-reported-undelivered-when-no-recipient-exists")
+	}
+}
